@@ -217,3 +217,46 @@ package directive
 //@   requires d.BodyCoords.file != nil && d.BodyCoords.begin + i <= len(d.BodyCoords.file.content) && !isnil(d.includeTracer)
 //@   modifies nothing
 //@   ensures ret != nil && ret.file == d.BodyCoords.file && ret.index == d.BodyCoords.begin + i
+
+// ---------------------------------------------------------------- iteration with callbacks (C16): see catalog/contracts_verif.go
+//@ func (*Directives).Each
+//@   tag C16 C01
+//@   requires m != nil && m.mx == 0 && fn != nil
+//@   oncallback requires m.mx == 1
+//@   oncallback keeps m.mx, m.data, m.order
+//@   ensures m.mx == 0 && m.order == old(m.order) && m.data == old(m.data)
+//@   loop 1 invariant m.mx == 1 && m.order == old(m.order) && m.data == old(m.data) && 0 - 1 <= rangeindex && rangeindex <= rangelen - 1 && rangelen == len(m.order)
+//@   loop 1 decreases rangelen - rangeindex
+//@ func (*Directives).EachReverse
+//@   tag C16 C01
+//@   requires m != nil && m.mx == 0 && fn != nil
+//@   oncallback requires m.mx == 1
+//@   oncallback keeps m.mx, m.data, m.order
+//@   ensures m.mx == 0 && m.order == old(m.order) && m.data == old(m.data)
+//@   loop 1 invariant m.mx == 1 && m.order == old(m.order) && m.data == old(m.data) && i < len(m.order)
+//@   loop 1 decreases i + 1
+//@ func (*Directives).EachSafe
+//@   tag C16 C01
+//@   requires m != nil && m.mx == 0 && fn != nil
+//@   oncallback requires m.mx == 1
+//@   oncallback keeps m.mx, m.data, m.order
+//@   ensures m.mx == 0 && m.order == old(m.order) && m.data == old(m.data)
+//@   loop 1 invariant m.mx == 1 && m.order == old(m.order) && m.data == old(m.data) && 0 - 1 <= rangeindex && rangeindex <= rangelen - 1 && rangelen == len(m.order)
+//@   loop 1 decreases rangelen - rangeindex
+//@ func (*Directives).Find
+//@   tag C16 C01
+//@   requires m != nil && m.mx == 0 && fn != nil
+//@   oncallback requires m.mx == 1
+//@   oncallback keeps m.mx, m.data, m.order
+//@   ensures m.mx == 0 && m.order == old(m.order) && m.data == old(m.data)
+//@   loop 1 invariant m.mx == 1 && m.order == old(m.order) && m.data == old(m.data) && 0 - 1 <= rangeindex && rangeindex <= rangelen - 1 && rangelen == len(m.order)
+//@   loop 1 decreases rangelen - rangeindex
+//@ func (*Directives).Map
+//@   tag C16 C01
+//@   requires m != nil && m.mx == 0 && fn != nil && m.data != nil
+//@   oncallback requires m.mx == 2
+//@   oncallback keeps m.mx, m.data, m.order
+//@   ensures m.mx == 0 && m.order == old(m.order) && m.data == old(m.data)
+//@   loop 1 invariant m.mx == 2 && m.order == old(m.order) && m.data == old(m.data) && 0 - 1 <= rangeindex && rangeindex <= rangelen - 1 && rangelen == len(m.order)
+//@   loop 1 decreases rangelen - rangeindex
+
